@@ -13,6 +13,7 @@ type string = String.t     (* the extracted Coq `string` type shadows OCaml's; r
      hkx <sha384 0|1> <salt> <ikm>                                      psHkdfExtract model
      len12 <suite> <n> / len13 <n> <pad>                                protected record body length of an n-byte fragment
      skh <md5sha1|sha1|sha256|sha384|sha512> <cr> <sr> <params>         hash of the ServerKeyExchange signed content
+     labels                                                             the spec's label table: role=hex ...
      dg <hash> <msg,..>                                                 hash of the concatenated messages
      tbs13 <sha384 0|1> <server 0|1> <msg,..>                           CertificateVerify content over these messages
    record tokens of hs12:  S:<c|s>:<seq>:<type>:<content>:<explicit nonce|->   seal with that side's write keys
@@ -113,6 +114,7 @@ let hs13_line suite psk isres ecdhe blen msgs recs =
       let r = seal13 s.s_cipher key iv (n_of_int seq) content (n_of_int ctype) (nat pad) in
       if guard13 key iv seq (List.length r - 5) then hx r else "MODEL<>SPEC-nonce-aad" in
     let hl = (match h with SHA256 -> 32 | SHA384 -> 48) in
+    let model_psk_differs = ref false in
     let fin_msg side = [n_of_int 20; n_of_int 0; n_of_int 0; n_of_int hl] @ (if side = "c" then t.t_client_finished else t.t_server_finished) in
     let do_rec (tk : string) = match String.split_on_char ':' tk with
       | ["S"; side; epoch; seq; ctype; content; pad] -> seal side epoch (int_of_string seq) (int_of_string ctype) (un content) (int_of_string pad)
@@ -128,21 +130,23 @@ let hs13_line suite psk isres ecdhe blen msgs recs =
              let nonce = nst_nonce content in
              let p = resumption_psk h e.e_res_master nonce in
              let pm = show_res (resumption_psk_model sha3 e.e_res_master nonce) in
-             base ^ "/" ^ check pm (hx p)
+             if pm <> hx p then model_psk_differs := true;
+             base ^ "/" ^ hx p
            end else base)
       | _ -> "BADREC" in
     (* model side of the schedule: psHkdfExpandLabel for the traffic keys and Finished *)
     let mvd_s = (match verify_data_model sha3 e.e_s_hs_traffic (transcript_hash h (let rec go l = match l with [] -> [] | m :: r -> if int_of_n (msg_type m) = 20 then [] else m :: go r in go ml)) with
                  | Ok v -> hx v | r -> show_res r) in
     let guard = if mvd_s <> hx t.t_server_finished then " MODEL<>SPEC[sfin " ^ mvd_s ^ "]" else "" in
-    String.concat " " ([kv "early" e.e_early; kv "binder_key" e.e_binder_key; kv "binder" t.t_binder; kv "c_e" e.e_c_e_traffic;
+    let body = String.concat " " ([kv "early" e.e_early; kv "binder_key" e.e_binder_key; kv "binder" t.t_binder; kv "c_e" e.e_c_e_traffic;
                         kv "hs" e.e_handshake; kv "c_hs" e.e_c_hs_traffic; kv "s_hs" e.e_s_hs_traffic; kv "master" e.e_master;
                         kv "c_ap" e.e_c_ap_traffic; kv "s_ap" e.e_s_ap_traffic; kv "exp" e.e_exp_master; kv "res" e.e_res_master;
                         kv "c_e_key" t.t_c_e_key; kv "c_e_iv" t.t_c_e_iv;
                         kv "c_hs_key" t.t_c_hs_key; kv "c_hs_iv" t.t_c_hs_iv; kv "s_hs_key" t.t_s_hs_key; kv "s_hs_iv" t.t_s_hs_iv;
                         kv "c_ap_key" t.t_c_ap_key; kv "c_ap_iv" t.t_c_ap_iv; kv "s_ap_key" t.t_s_ap_key; kv "s_ap_iv" t.t_s_ap_iv;
                         kv "sfin" t.t_server_finished; kv "cfin" t.t_client_finished; kv "scv" t.t_server_cv_content; kv "ccv" t.t_client_cv_content]
-                       @ List.mapi (fun i tk -> Printf.sprintf "r%d=%s" i (do_rec tk)) recs) ^ guard
+                       @ List.mapi (fun i tk -> Printf.sprintf "r%d=%s" i (do_rec tk)) recs) in
+    body ^ guard ^ (if !model_psk_differs then " MODEL<>SPEC[resumption-psk]" else "")
 
 let hash_by_name name m = match name with
   | "md5sha1" -> md5_spec m @ sha1_spec m | "sha1" -> sha1_spec m | "sha256" -> hash SHA256 m | "sha384" -> hash SHA384 m
@@ -169,6 +173,7 @@ let () = iter_lines (fun l ->
     (match suite_of (n_of_hex suite) with Some s -> string_of_int (int_of_nat (body_len12 s (nat (int_of_string nn)))) | None -> "UNKNOWN-SUITE")
   | ["len13"; nn; pad] -> string_of_int (int_of_nat (body_len13 (nat (int_of_string nn)) (nat (int_of_string pad))))
   | ["skh"; name; cr; sr; params] -> hx (hash_by_name name (ske_signed_content (un cr) (un sr) (un params)))
+  | ["labels"] -> String.concat " " (List.map (fun (r, l) -> String.concat "" (List.map (fun c -> String.make 1 (Char.chr (int_of_n c))) r) ^ "=" ^ hx l) rfc_labels)
   | ["dg"; name; msgs] -> hx (hash_by_name name (List.concat (msgs_of msgs)))
   | ["tbs13"; sha3; server; msgs] ->
     let h = if sha3 = "1" then SHA384 else SHA256 in
